@@ -27,9 +27,9 @@ PROPS["C14"] = dict(
     assumptions=["oracle/chacha is a from-RFC-8439 implementation with the RFC's test vectors as self-test",
                  "positions beyond 2^32 blocks (256 GiB) are outside the documented range and not generated"],
     jobs=[
-        J("TestC14_Stream", 400, 4000, shards=8),
-        J("TestC14_EveryOffset", 2, 6, shards=4),
-        J("TestC14_Invalid", 300, 3000, shards=2),
+        J("TestC14_Stream", 600, 60000, shards=14),
+        J("TestC14_EveryOffset", 2, 12, shards=8),
+        J("TestC14_Invalid", 600, 60000, shards=4),
     ],
 )
 
@@ -44,11 +44,11 @@ PROPS["C13"] = dict(
     assumptions=["oracle/keccak and oracle/sha2 are from-spec implementations self-tested on FIPS 202 / SP 800-185 / FIPS 180-4 vectors and cross-checked against the Go standard library",
                  "after SumHash/ComputeHash on a SHA-3/Keccak object and after ComputeHash on a SHA-2 object only Reset/ComputeHash are issued (continuation unspecified by the documentation)"],
     jobs=[
-        J("TestC13_LengthSplit", 12, 24, shards=6),
-        J("TestC13_History", 600, 5000, shards=6),
-        J("TestC13_KMACParams", 500, 4000, shards=2),
-        J("TestC13_KMACEveryKeyLen", 2, 4, shards=1),
-        J("TestC13_KMACInvalid", 300, 2000, shards=1),
+        J("TestC13_LengthSplit", 12, 60, shards=8),
+        J("TestC13_History", 1500, 60000, shards=12),
+        J("TestC13_KMACParams", 1500, 40000, shards=6),
+        J("TestC13_KMACEveryKeyLen", 2, 10, shards=4),
+        J("TestC13_KMACInvalid", 500, 20000, shards=2),
     ],
 )
 
@@ -65,8 +65,8 @@ PROPS["C01"] = dict(
           "Non-trivial = the case has the accepted string and at least one rejected candidate that decodes to a curve point; distinct by draw-record hash."),
     assumptions=BLS_ASSUME,
     jobs=[
-        J("TestC01_Exact", 250, 2500, shards=14),
-        J("TestC01_Hasher", 150, 1000, shards=2),
+        J("TestC01_Exact", 400, 10000, shards=15),
+        J("TestC01_Hasher", 300, 10000, shards=2),
     ],
 )
 
@@ -78,9 +78,9 @@ PROPS["C02"] = dict(
           "VerifyBLSSignatureOneMessage compared with Verify under the aggregated key and with the oracle; single-fault error inputs. Non-trivial = n ≥ 2 with a repeated key or message; distinct by draw-record hash."),
     assumptions=BLS_ASSUME,
     jobs=[
-        J("TestC02_ManyMessages", 120, 1200, shards=12),
-        J("TestC02_OneMessage", 120, 1200, shards=3),
-        J("TestC02_Errors", 200, 1500, shards=1),
+        J("TestC02_ManyMessages", 200, 3500, shards=12),
+        J("TestC02_OneMessage", 200, 4000, shards=4),
+        J("TestC02_Errors", 300, 10000, shards=1),
         J("TestC02_ManyMessages", 0, 300, shards=2, mode="asan", tiers=("thorough",)),
     ],
 )
@@ -93,9 +93,9 @@ PROPS["C03"] = dict(
           "Non-trivial = at least one valid and one invalid position; distinct by draw-record hash (generated) / by construction (subsets)."),
     assumptions=BLS_ASSUME + ["the 2^-128 soundness error of the batch coefficients (crypto/rand inside the library) is ignored"],
     jobs=[
-        J("TestC03_Generated", 250, 2500, shards=10),
+        J("TestC03_Generated", 400, 5000, shards=12),
         J("TestC03_Subsets", 6, 6, shards=4),
-        J("TestC03_Errors", 150, 1000, shards=1),
+        J("TestC03_Errors", 200, 5000, shards=1),
     ],
 )
 
@@ -106,9 +106,9 @@ PROPS["C04"] = dict(
           "plus plain E1 sums with operands outside G1, plus error inputs. Non-trivial = size ≥ 3 with a duplicate, inverse pair, nesting depth ≥ 2 or identity sum; distinct by draw-record hash."),
     assumptions=BLS_ASSUME,
     jobs=[
-        J("TestC04_Homomorphism", 200, 1500, shards=10),
-        J("TestC04_NonG1", 200, 1500, shards=2),
-        J("TestC04_Errors", 150, 1000, shards=1),
+        J("TestC04_Homomorphism", 300, 8000, shards=12),
+        J("TestC04_NonG1", 300, 8000, shards=3),
+        J("TestC04_Errors", 200, 8000, shards=1),
     ],
 )
 
@@ -123,16 +123,16 @@ PROPS["C05"] = dict(
         "while finding F1 (G2 coefficient order c0||c1 instead of ZCash c1||c0) is listed as known, the BLS public-key oracle uses the library's coefficient order and counts that exclusion; everything else of the ZCash format is still enforced",
         "the zero private key that AggregateBLSPrivateKeys documents it may return is not required to round-trip"],
     jobs=[
-        J("TestC05_BLSPrivate", 1500, 20000, shards=1),
-        J("TestC05_BLSPublic", 800, 5000, shards=6),
-        J("TestC05_BLSSignature", 1500, 10000, shards=3),
-        J("TestC05_ECDSAPrivate", 1500, 20000, shards=1),
-        J("TestC05_ECDSAPublic", 1500, 10000, shards=2),
-        J("TestC05_Produced", 300, 2000, shards=2),
-        J("TestC05_Enumerations", 3, 8, shards=2),
-        J("cfuzz:SER_E1", 150000, 90, kind="cfuzz", target="SER_E1", env={"VERIF_CFUZZ_FORK": "5"}),
-        J("cfuzz:SER_E2", 100000, 90, kind="cfuzz", target="SER_E2", env={"VERIF_CFUZZ_FORK": "5"}),
-        J("cfuzz:SER_FR", 150000, 60, kind="cfuzz", target="SER_FR", env={"VERIF_CFUZZ_FORK": "4"}),
+        J("TestC05_BLSPrivate", 2000, 100000, shards=2),
+        J("TestC05_BLSPublic", 1000, 15000, shards=8),
+        J("TestC05_BLSSignature", 2000, 40000, shards=4),
+        J("TestC05_ECDSAPrivate", 2000, 100000, shards=2),
+        J("TestC05_ECDSAPublic", 2000, 40000, shards=4),
+        J("TestC05_Produced", 400, 6000, shards=3),
+        J("TestC05_Enumerations", 3, 12, shards=4),
+        J("cfuzz:SER_E1", 150000, 240, kind="cfuzz", target="SER_E1", env={"VERIF_CFUZZ_FORK": "5"}),
+        J("cfuzz:SER_E2", 100000, 240, kind="cfuzz", target="SER_E2", env={"VERIF_CFUZZ_FORK": "5"}),
+        J("cfuzz:SER_FR", 150000, 120, kind="cfuzz", target="SER_FR", env={"VERIF_CFUZZ_FORK": "4"}),
     ],
 )
 
@@ -146,11 +146,11 @@ PROPS["C06"] = dict(
     assumptions=BLS_ASSUME + ["oracle/fr (Lagrange / finite differences over F_r) is trusted; self-tested on hand-checked polynomials",
                               "a share s+T whose small-order component is annihilated by its Lagrange coefficient legitimately yields the exact signature; this is accepted (class torsionAnnihilatedByLagrangeCoefficient)"],
     jobs=[
-        J("TestC06_Generated", 100, 700, shards=8),
-        J("TestC06_BadShare", 150, 1200, shards=4),
+        J("TestC06_Generated", 150, 2500, shards=10),
+        J("TestC06_BadShare", 200, 5000, shards=5),
         J("TestC06_Subsets", 2, 2, shards=2),
-        J("TestC06_Fixed", 12, 60, shards=2),
-        J("TestC06_Errors", 150, 1000, shards=1),
+        J("TestC06_Fixed", 12, 150, shards=4),
+        J("TestC06_Errors", 200, 5000, shards=1),
     ],
 )
 
@@ -165,9 +165,9 @@ PROPS["C11"] = dict(
     assumptions=["oracle/wecdsa (math/big Weierstrass arithmetic, FIPS 186-4 verification) is trusted; self-tested on RFC 6979 vectors and cross-checked against crypto/ecdsa and btcec",
                  "digests come from the oracle/sha2 and oracle/keccak implementations, not from the library's hashers"],
     jobs=[
-        J("TestC11_Exact", 500, 3000, shards=12),
-        J("TestC11_Hasher", 2000, 20000, shards=1),
-        J("TestC11_CraftedSmallS", 600, 4000, shards=3),
+        J("TestC11_Exact", 500, 6000, shards=14),
+        J("TestC11_Hasher", 2000, 100000, shards=1),
+        J("TestC11_CraftedSmallS", 600, 20000, shards=3),
     ],
 )
 
@@ -180,10 +180,10 @@ PROPS["C12"] = dict(
           "PublicKey() twice gives Equal keys, DecodePublicKey(Encode()) round-trips. Non-trivial = every accepted case; distinct by (algorithm, seed) / (algorithm, origin, scalar)."),
     assumptions=["oracle/keygen implements the documented derivations on oracle/sha2; self-tested on the repository's pinned breaking-change vectors", "oracle/wecdsa and oracle/bls381 give scalar·generator"],
     jobs=[
-        J("TestC12_ConcurrentPublicKey", 60, 300, shards=4),
-        J("TestC12_Seed", 2000, 12000, shards=4),
-        J("TestC12_EveryLength", 8, 30, shards=2),
-        J("TestC12_PublicKey", 2000, 12000, shards=3),
+        J("TestC12_ConcurrentPublicKey", 60, 1500, shards=4),
+        J("TestC12_Seed", 2000, 50000, shards=5),
+        J("TestC12_EveryLength", 8, 100, shards=3),
+        J("TestC12_PublicKey", 2000, 50000, shards=4),
     ],
 )
 
@@ -199,9 +199,9 @@ PROPS["C15"] = dict(
                  "conditional uniformity at read depth >= 3 follows from the identical decision function verified at depths 1 and 2 (UintN carries no other state)",
                  "SubPermutation's unused slice capacity is read only to tell draws apart during probing"],
     jobs=[
-        J("TestC15_Public", 400, 4000, shards=4),
+        J("TestC15_Public", 600, 60000, shards=4),
         J("TestVerifC15_UintN", 4096, 65536, shards=16, kind="c15"),
-        J("TestVerifC15_Perm", 7, 8, shards=1, kind="c15"),
+        J("TestVerifC15_Perm", 7, 9, shards=4, kind="c15"),
         J("TestVerifC15_Deep", 128, 1024, shards=4, kind="c15"),
     ],
     exhaustive_note="UintN: all first reads (and all second reads after a rejection) for every n in the budget; permutation helpers: all accepted-value tapes for n <= 7 (8)",
@@ -217,8 +217,8 @@ PROPS["C20"] = dict(
     assumptions=["this CPU has ADX; the portable build really runs the non-ADX mulq assembly (blst's cpuid probe is not compiled by the cgo build)", "-D__BLST_NO_ASM__ does not compile on amd64 at the pinned commit and is excluded",
                  "ECDSA Sign is randomized and excluded; batch verification is compared by verdict list; DKG callback log texts are not compared (the library names a complainer by map iteration)"],
     jobs=[
-        J("TestC20_Configs", 1500, 15000, shards=6),
-        J("TestC20_DKG", 400, 3000, shards=4),
+        J("TestC20_Configs", 1500, 60000, shards=6),
+        J("TestC20_DKG", 400, 12000, shards=4),
     ],
 )
 
@@ -229,7 +229,7 @@ PROPS["C16"] = dict(
           "three kinds of identity key; for generated and crafted tags (empty, long, every prefix/suffix of the two suite strings, the PoP suite itself, tags making tag||SIG-suite share a prefix or suffix with the PoP suite) the signature of the public-key bytes (and of a generated message) "
           "must not verify as a PoP and the PoP must not verify as a signature. Non-trivial = crafted tag, or a candidate set with an accepted and a curve-point-rejected member; distinct by draw-record hash."),
     assumptions=BLS_ASSUME,
-    jobs=[J("TestC16_PoP", 200, 1500, shards=10), J("TestC16_NonBLS", 50, 200, shards=1)],
+    jobs=[J("TestC16_PoP", 300, 6000, shards=15), J("TestC16_NonBLS", 50, 200, shards=1)],
 )
 
 PROPS["C17"] = dict(
@@ -239,7 +239,7 @@ PROPS["C17"] = dict(
           "expected verdict := a·x2 ≡ b·x1 (mod r) on one base, both-identity on independent bases; each pair also swapped; the first proof replaced by ~25 structured candidates (non-canonical / outside G1 must be rejected); identity keys; SPOCKProve = Sign and SPOCKVerifyAgainstData = Verify; non-BLS keys and bad hashers give typed errors. "
           "Non-trivial = accepted without being the honest pair, or rejected although both proofs are non-identity G1 points; distinct by draw-record hash."),
     assumptions=BLS_ASSUME + ["two hash-to-curve images of different data are treated as independent bases (unknown discrete-log relation)"],
-    jobs=[J("TestC17_Verify", 250, 1500, shards=10), J("TestC17_NonBLS", 50, 200, shards=1)],
+    jobs=[J("TestC17_Verify", 300, 4000, shards=15), J("TestC17_NonBLS", 50, 200, shards=1)],
 )
 
 DKG_RULE = ("one network simulator (harness/sim): protocol in {Feldman-VSS-Qual with one dealer, Joint-Feldman}, n = 2..5 (thorough 7, a few 10), t = 1..n-1, at most t Byzantine participants (the dealer may be one). Honest participants are real library instances behind a recording processor; "
@@ -254,7 +254,7 @@ PROPS["C07"] = dict(
           "(every 5th case, always in thorough) group key and all public shares on one polynomial of degree <= t by Lagrange interpolation in G2 with the oracle, and t+1 honest participants reconstruct a signature valid under the group key. "
           "Non-trivial = a Byzantine participant performed a non-honest action and the delivery order was not FIFO; distinct by draw-record hash."),
     assumptions=BLS_ASSUME[:1] + ["the assumptions of the statement: round-synchronous delivery, reliable broadcast, at most t Byzantine participants", "Joint-Feldman: the disqualified set of a participant is read from its Disqualify callbacks; single-dealer protocol: from the End verdict"],
-    jobs=[J("TestC07_Agreement", 1000, 2500, shards=16)],
+    jobs=[J("TestC07_Agreement", 1000, 4000, shards=16)],
 )
 
 PROPS["C08"] = dict(
@@ -264,7 +264,7 @@ PROPS["C08"] = dict(
           "or who left an honest complaint unanswered or answered it with a value not matching its vector, is disqualified by every honest participant; (g) plain Feldman VSS: every delivery order of (vector, share, one duplicate of each) x every kind of vector and share: End returns keys iff the first vector is valid (oracle) and the first share is well-formed and matches it, otherwise a DKG-failure error. "
           "Non-trivial = Byzantine non-honest action and non-FIFO delivery (simulator) / an invalid or inconsistent dealing (plain VSS); distinct by draw-record hash / by construction."),
     assumptions=BLS_ASSUME[:1] + ["the assumptions of the statement: round-synchronous delivery, reliable broadcast, at most t Byzantine participants"],
-    jobs=[J("TestC08_Fairness", 1000, 2500, shards=14), J("TestC08_PlainVSS", 3, 10, shards=4)],
+    jobs=[J("TestC08_Fairness", 1000, 5000, shards=14), J("TestC08_PlainVSS", 2, 12, shards=6)],
 )
 
 PROPS["C10"] = dict(
@@ -275,7 +275,7 @@ PROPS["C10"] = dict(
           "Oracle 2 (non-interference, metamorphic): a twin instance receives only the calls the model accepts; the instance that additionally received the rejected calls must emit the same messages and callbacks and end with the same End result. Both are driven to End and re-checked after End. "
           "Non-trivial = the sequence contains a call rejected for a state or index reason while running; distinct by draw-record hash."),
     assumptions=["Start after End and Start with a too-short seed are outside the quantifier (documentation asks for a new instance per run)"],
-    jobs=[J("TestC10_StateMachine", 1500, 8000, shards=8)],
+    jobs=[J("TestC10_StateMachine", 2000, 50000, shards=16)],
 )
 
 PROPS["C09"] = dict(
@@ -287,12 +287,12 @@ PROPS["C09"] = dict(
           "Non-trivial = the input is invalid in at least one way and the call returned; distinct by draw-record hash."),
     assumptions=["documented exceptions are excluded by construction: UintN(0), nil interface / callback arguments, permutation and KMAC sizes above 2^20, PRG positions beyond the documented 256 GiB stream, hashers whose ComputeHash returns fewer bytes than Size() claims, the no_cgo build",
                  "Go's -asan does not see over-reads that stay inside a slice's capacity; memory safety of the C layer on arbitrary bytes is the subject of the libFuzzer targets in cfuzz/ (when built) and of the semantic oracles of C05/C06"],
-    jobs=[J("TestC09_Calls", 3000, 20000, shards=12, journal=True), J("TestC09_Regressions", 1, 1, journal=True), J("TestC09_DKGNetwork", 500, 2500, shards=4, journal=True),
+    jobs=[J("TestC09_Calls", 3000, 40000, shards=12, journal=True), J("TestC09_Regressions", 1, 1, journal=True), J("TestC09_DKGNetwork", 500, 6000, shards=6, journal=True),
           J("TestC09_Calls", 0, 3000, shards=4, journal=True, mode="asan", tiers=("thorough",)),
-          J("cfuzz:SUM_VECTOR", 30000, 90, kind="cfuzz", target="SUM_VECTOR"),
-          J("cfuzz:LAGRANGE", 40000, 90, kind="cfuzz", target="LAGRANGE"),
-          J("cfuzz:G2_VECTOR", 30000, 90, kind="cfuzz", target="G2_VECTOR"),
-          J("cfuzz:VERIFY", 4000, 120, kind="cfuzz", target="VERIFY")],
+          J("cfuzz:SUM_VECTOR", 30000, 240, kind="cfuzz", target="SUM_VECTOR"),
+          J("cfuzz:LAGRANGE", 40000, 240, kind="cfuzz", target="LAGRANGE"),
+          J("cfuzz:G2_VECTOR", 30000, 240, kind="cfuzz", target="G2_VECTOR"),
+          J("cfuzz:VERIFY", 4000, 300, kind="cfuzz", target="VERIFY")],
 )
 
 PROPS["C18"] = dict(
@@ -303,7 +303,7 @@ PROPS["C18"] = dict(
     assumptions=["the Go scheduler, not the harness, chooses the interleavings: a window of a few instructions can survive the stress; the race detector is happens-before based and does not need the bad interleaving to occur",
                  "a porcupine time-out (10 s) is counted as inconclusive, never as a violation"],
     technique="property-based generation of concurrent programs (rapid) + porcupine linearizability checking + Go race detector",
-    jobs=[J("TestC18_Linearizable", 120, 600, shards=16, mode="race")],
+    jobs=[J("TestC18_Linearizable", 120, 1200, shards=16, mode="race")],
 )
 
 PROPS["C19"] = dict(
@@ -314,7 +314,7 @@ PROPS["C19"] = dict(
     assumptions=["the race detector does not instrument the C layer; C code is reached only through immutable Go-owned buffers, whose integrity is compared before/after",
                  "lazy PublicKey() caching is not among the operations the property lists and is materialised before sharing"],
     technique="property-based generation of concurrent operation mixes (rapid) under the Go race detector with a solo-run differential oracle",
-    jobs=[J("TestC19_RaceFree", 150, 500, shards=16, mode="race")],
+    jobs=[J("TestC19_RaceFree", 150, 1500, shards=16, mode="race")],
 )
 
 
